@@ -543,6 +543,7 @@ struct Extractor {
 			curCalls.insert(fnId(CD));
 			if (CD->isCopyConstructor()) o["copy"] = true;
 			if (CD->isMoveConstructor()) o["move"] = true;
+			if (C->isElidable()) o["elidable"] = true;		// C++11/14: copy / move of a prvalue that C++17 never materialises
 			if (C->isListInitialization()) o["list"] = true;
 			if (isa<CXXTemporaryObjectExpr>(C)) o["temp"] = true;
 			json::Array args;
